@@ -370,8 +370,8 @@ class EvalMixin:
         k = z3.Int(fresh_name('k'))
         self.path.assume(z3.ForAll([k], z3.Implies(z3.And(k >= 0, k < a.len),
                                                    z3.Select(arr, k) == a.at(k))))
-        self.path.assume(z3.ForAll([k], z3.Implies(z3.And(k >= 0, k < b.len),
-                                                   z3.Select(arr, a.len + k) == b.at(k))))
+        self.path.assume(z3.ForAll([k], z3.Implies(z3.And(k >= a.len, k < a.len + b.len),
+                                                   z3.Select(arr, k) == b.at(k - a.len))))
         return SBytes(arr, z3.IntVal(0), a.len + b.len)
 
     def ev_Compare(self, node):
@@ -488,6 +488,11 @@ class EvalMixin:
             self.raise_('AttributeError', '%s has no attribute %r' % (obj.cls, name))
         if isinstance(obj, VClass):
             return self.class_static_attr(obj, name)
+        if isinstance(obj, SBytes):
+            if name == 'itemsize':
+                return mk_int(1)
+            if name in ('tobytes', '__enter__', 'release', 'cast'):
+                return VExternal('<bytes>.' + name, obj)
         if isinstance(obj, STup) and name in ('index', 'count'):
             raise Unsupported('tuple method')
         if isinstance(obj, SStr) and not self.spec:
